@@ -893,9 +893,11 @@ theorem predLoop_spec (habs : ∀ x : α, call "abs" [.val x] = .ok (.val (Val.a
       obtain ⟨env', hx, hr', f2⟩ := ih env1 (acc ++ [(t, cmpOfDiff c x)])
         (by rw [f1 _ (by simp)]; exact hc) (by rw [← henv1]; simp) (by rw [f1 _ (by simp)]; exact hres)
       refine ⟨env', ?_, ?_, ?_⟩
-      · simp only [List.map_cons, forLoop_cons, encSmp]
-        simp only [encSmp] at hx
-        simp [hb, hx]
+      · have e : (((t, x) :: d).map encSmp).map (fun v => (v, (0 : Nat))) =
+            (DV.smp t (.val x), 0) :: (d.map encSmp).map (fun v => (v, 0)) := rfl
+        rw [e, forLoop_cons]
+        simp only [hb, ok_bind]
+        exact hx
       · simpa using hr'
       · intro k' hk; rw [f2 _ hk, f1 _ hk]
 
